@@ -1716,6 +1716,18 @@ func (fr *Frame) execRange(b *ssa.BasicBlock, st *State, x *ssa.Range) {
 	fr.wrRow(st, hIter, it, "((as const (Array Int Bool)) false)")
 	fr.env[x] = Val{S: it, Typ: x.Type()}
 	fc.iters[it] = x
+	// ghost: the keys are handed out as a sequence itkey(it, 0), itkey(it, 1), ...; ITN[it] counts them
+	fc.regVar(hIterN, arrSort("Int"))
+	fr.wr1(st, hIterN, it, "0")
+	if mt, ok := x.X.Type().Underlying().(*types.Map); ok {
+		_ = mt
+		fr.regMap(x.X.Type())
+		m := fr.scalar(fr.val(x.X))
+		if fc.mapIters == nil {
+			fc.mapIters = map[string]mapIterInfo{}
+		}
+		fc.mapIters[it] = mapIterInfo{m: m, mt: x.X.Type(), mpRow: sSel(fc.get(st, heapMapP(x.X.Type())), m)}
+	}
 }
 
 func (fr *Frame) execNext(b *ssa.BasicBlock, st *State, x *ssa.Next) {
@@ -1736,6 +1748,13 @@ func (fr *Frame) execNext(b *ssa.BasicBlock, st *State, x *ssa.Next) {
 	seen := fc.rd(st, hIter, it)
 	present := func(key string) string { return fr.mapPresent(st, mt, m, key) }
 	fr.assume(b, sImp(ok, sAnd(present(k), sNot(sSel(seen, k)))))
+	// ghost sequence of keys and its length
+	fc.regVar(hIterN, arrSort("Int"))
+	cnt := fc.rd(st, hIterN, it)
+	fr.assume(b, sApp(">=", cnt, "0"))
+	fr.assume(b, sImp(ok, sEq(k, sApp("itkey", it, cnt))))
+	fr.assume(b, sImp(sNot(ok), sApp("itdone", it)))
+	fr.wr1(st, hIterN, it, sIte(ok, sApp("+", cnt, "1"), cnt))
 	fc.qcount++
 	kk := fmt.Sprintf("qv%dx_kk", fc.qcount)
 	exitBody := sImp(present(kk), sSel(seen, kk))
